@@ -3,6 +3,10 @@
 taking the witness history of each signature from a worker report given on the command line."""
 import json, sys
 DESC = {
+ "C13|v9|protocol_number|unassigned|model=255": ("KF-C13-v9-protocol-number-unassigned", "V9 common flow: a PROTOCOL byte in 145..=254 is reported as protocol_number 255 (the decoded ProtocolTypes::Unknown carries no number)", "src/netflow_common.rs From<&V9> / src/protocol.rs From<ProtocolTypes> for u8", "same root as KF-C09-protocol-unassigned: needs a public enum change"),
+ "C13|ipfix|protocol_type|n=0|got=Unknown": ("KF-C13-ipfix-protocol-name-0", "IPFIX common flow: protocolIdentifier 0 (IANA HOPOPT) is named Unknown (ProtocolTypes::from(u8) table)", "src/protocol.rs impl From<u8> for ProtocolTypes", "same root as KF-C03-protocol-0 (snapshot-pinned table)"),
+ "C13|ipfix|protocol_type|n=1|got=Hopopt": ("KF-C13-ipfix-protocol-name-1", "IPFIX common flow: protocolIdentifier 1 (IANA ICMP) is named Hopopt (ProtocolTypes::from(u8) table)", "src/protocol.rs impl From<u8> for ProtocolTypes", "same root as KF-C03-protocol-1 (snapshot-pinned table)"),
+ "C13|ipfix|protocol_type|n=144|got=Reserved": ("KF-C13-ipfix-protocol-name-144", "IPFIX common flow: protocolIdentifier 144 (IANA AGGFRAG) is named Reserved (ProtocolTypes::from(u8) table)", "src/protocol.rs impl From<u8> for ProtocolTypes", "same root as KF-C03-protocol-144 (snapshot-pinned table)"),
  "C06|ipfix|template|field_count-not-enforced|model=greedy-to-end-of-set": ("KF-C06-ipfix-field-count-not-enforced", "IPFIX template records are not delimited by their field_count: a set that ends inside a record, or that carries further records, is cached as one template whose field list runs to the end of the set", "src/variable_versions/ipfix.rs Template (fields parsed greedily; is_valid compares the field list with itself)", "same root as KF-C05-template-set-multi-record; delimiting by field_count changes what existing snapshots record"),
  "C04|v9|options-data|multi-record|model=first-record-only": ("KF-C04-options-data-multi-record", "V9 options data flowset with more than one record: only the first record is decoded, the others are reported as padding", "src/variable_versions/v9.rs OptionsData (result type holds one record)", "the public result type OptionsData has room for one record only; repairing it changes the public API and the snapshots"),
  "C05|ipfix|template-set|multi-record|model=greedy-merge": ("KF-C05-template-set-multi-record", "IPFIX template set carrying more than one template record is decoded as one template whose field list greedily swallows the following records (and only the first id is cached)", "src/variable_versions/ipfix.rs Template (fields parsed to end of set; FlowSetBody::Template holds one template)", "FlowSetBody::Template holds a single template; a repair changes the public result type"),
